@@ -256,12 +256,12 @@ EXTRA_NAMES = ["f", "ns.f", "_under", "ns", "ns.g", "f.x", "pub.__self__", "pub.
                "__class__.__name__", "sub.__class__", "_log", "sub._log.append", "_log.append", "_log.clear"]
 
 
-def method_names():
+def method_names(maxseg=3):
     seen = set()
     for n in EXTRA_NAMES:
         seen.add(n)
         yield n
-    for k in (1, 2, 3):
+    for k in range(1, maxseg + 1):
         for combo in itertools.product(SEGMENTS, repeat=k):
             n = ".".join(combo)
             if n and n not in seen:
@@ -273,7 +273,9 @@ def cases_names(tier):
     """One case = a short history on several dispatchers living in the same process (so that state shared between
     dispatchers, e.g. a class-level cache, shows): the name on two dispatchers with the full instance, on one
     without instance, then on a dispatcher whose instance has other attributes, and back."""
-    for n in method_names():
+    for n in method_names(4 if tier == "thorough" else 3):
+        if n.count(".") == 3 and any(seg in ("", "__init__", "__dict__", "data", "attr") for seg in n.split(".")[:2]):
+            continue  # 4-segment paths: the first two segments range over the 8 segments that can lead somewhere
         if tier == "quick" and n.count(".") == 2 and n not in EXTRA_NAMES and hash_mod(n) % 3:
             continue
         for params in ([], [1]):
@@ -475,7 +477,7 @@ META = {
     "third of the 3-segment paths) against function table and instance; arity: 9 signatures x 21 argument shapes; registry-history: every sequence of <=2 registry changes (instance "
     "replaced / restored, attribute removed, function added / removed) with 8 names resolved before and after each change on one dispatcher; exceptions: 14 "
     "classes x 7 messages (incl. 306 and 4803 characters), and exceptions raised by a custom dispatch function and by an instance's own _dispatch; client: the codes surfaced as ProtocolError through a loopback ServerProxy; non-trivial = inside the property's domain",
-    "bounds": {"quick": {"segments": 3, "seeds": 6}, "thorough": {"segments": 3, "seeds": 12}},
+    "bounds": {"quick": {"segments": 3, "seeds": 6}, "thorough": {"segments": 4, "seeds": 12}},
     "assumptions": [
         "an attribute path that exists but is not callable may be answered -32601 or -32602 (the property fixes neither)",
         "the empty body may be answered -32600 or -32700",
